@@ -130,8 +130,9 @@ def _named(fn, name):
     return run
 
 
-def schedules(ctx):
-    """Every <=2-pre-emption schedule of {arrival, POWEROFF, POWERON} racing one tick."""
+def schedules(ctx, only=None):
+    """Every <=2-pre-emption schedule of {arrival, POWEROFF, POWERON} racing one tick.
+    `only`: restrict to scenarios with this socket-thread operation (used by C12 for POWEROFF)."""
     import itertools
     r = tlc.run("FakeTrxThreadsMC.tla", "MC_FakeTrxThreads.cfg", workers=4, timeout=1200)
     ctx.require_ok("MC FakeTrxThreadsMC (all interleavings of one socket-thread operation with one tick)", r)
@@ -144,24 +145,35 @@ def schedules(ctx):
         scns.append(dict(run=True, q=q, fn=F0, op=dict(op="off")))
     scns.append(dict(run=False, q=[], fn=F0, op=dict(op="on")))
     scns.append(dict(run=False, q=[], fn=F0, op=dict(op="arrive", m=dict(id=3, fn=F0))))
-    if not ctx.thorough:
+    if only:
+        scns = [x for x in scns if x["op"]["op"] == only]
+        if not ctx.thorough:
+            scns = scns[2:3]
+    elif not ctx.thorough:
         scns = [scns[i] for i in (4, 11, 12)]
     traces = []
     nexec = 0
     for si, scn in enumerate(scns):
         try:
-            _, steps, _ = one_schedule(scn, "sock", 10 ** 6, 0)      # sequential run: measures the step counts
+            # two sequential probes (socket operation first / tick first): line-step counts and the
+            # positions of the queue-mutex sections differ with the order
+            _, pa, _ = one_schedule(scn, "sock", 10 ** 6, 0)
+            _, pb, _ = one_schedule(scn, "clk", 10 ** 6, 0)
         except ResetFailed as e:
-            ctx.violation("C03/schedule/power-cycle-does-not-reset", str(e), dict(scenario=scn))
+            ctx.violation(ctx.pid + "/schedule/power-cycle-does-not-reset", str(e), dict(scenario=scn))
             return
-        na, nb = steps.get("sock", 0), steps.get("clk", 0)
-        # the clock thread's steps up to (a little past) its last release of the queue mutex are
-        # enumerated completely; the forwarding / logging steps after it with a stride in quick
-        lo, hi = max(0, steps.get("acq", 0) - 3), min(nb, steps.get("mark", nb) + 4)
+        na = max(pa.get("sock", 0), pb.get("sock", 0))
+        nb = max(pa.get("clk", 0), pb.get("clk", 0))
         tail = 1 if ctx.thorough else 7
-        clk_points = sorted(set(list(range(0, lo, tail)) + list(range(lo, hi + 1)) + list(range(hi + 1, nb + 1, tail)) + [nb]))
-        slo, shi = max(0, steps.get("sacq", 0) - 3), min(na, (steps.get("smark", na) or na) + 4)
-        sock_points = sorted(set(list(range(0, slo, tail)) + list(range(slo, shi + 1)) + list(range(shi + 1, na + 1, tail)) + [na]))
+
+        def points(n, wins):
+            pts = set(range(0, n + 1, tail)) | {n}
+            for lo, hi in wins:
+                if hi > 0:
+                    pts |= set(range(max(0, lo - 3), min(n, hi + 4) + 1))
+            return sorted(pts)
+        clk_points = points(nb, [(pa.get("acq", 0), pa.get("mark", 0)), (pb.get("acq", 0), pb.get("mark", 0))])
+        sock_points = points(na, [(pa.get("sacq", 0), pa.get("smark", 0)), (pb.get("sacq", 0), pb.get("smark", 0))])
         for first in ("sock", "clk"):
             r1 = sock_points if first == "sock" else clk_points
             r2 = clk_points if first == "sock" else sock_points
@@ -172,7 +184,7 @@ def schedules(ctx):
                     log, _, errs = one_schedule(scn, first, k1, k2)
                     nexec += 1
                     if errs:
-                        ctx.violation("C03/schedule/exception/%s" % type(list(errs.values())[0]).__name__,
+                        ctx.violation(ctx.pid + "/schedule/exception/%s" % type(list(errs.values())[0]).__name__,
                                       "exception %r in scenario %d schedule (%s,%d,%d)" % (errs, si, first, k1, k2),
                                       dict(scenario=scn, schedule=[first, k1, k2]))
                         continue
@@ -195,7 +207,7 @@ def schedules(ctx):
         if v["reached"] != v["n"]:
             t = byid[v["id"]]
             e = t["ev"][v["reached"]]
-            ctx.violation("C03/schedule/%s/%s" % (e["e"], t["ev"][0].get("op", "tick-first") if t["ev"][0]["e"] == "sockStart" else [x for x in t["ev"] if x["e"] == "sockStart"][0]["op"]),
+            ctx.violation(ctx.pid + "/schedule/%s/%s" % (e["e"], t["ev"][0].get("op", "tick-first") if t["ev"][0]["e"] == "sockStart" else [x for x in t["ev"] if x["e"] == "sockStart"][0]["op"]),
                           "schedule %s: no interleaving of the specification explains event %d (%s)" % (v["id"], v["reached"] + 1, e),
                           dict(cfg=t["cfg"], events=t["ev"]))
     ctx.sample(dict(schedule=ul[len(ul) // 2]["id"], events=ul[len(ul) // 2]["ev"]))
